@@ -610,6 +610,7 @@ func genFormat(t *rapid.T, format string) Case {
 	o.NoAdjacentBreaks = true // two breaks in a row are a paragraph boundary in Markdown (see NOTES.md)
 	o.NoEdgeWhite = rapid.IntRange(0, 3).Draw(t, "edge_white") < 3
 	o.NoLevelJumps = !rapid.Bool().Draw(t, "level_jumps")
+	o.NumberedHeadings = format == "docx"
 	wantWraps := rapid.IntRange(0, 2).Draw(t, "containers") == 2
 	switch format {
 	case "docx":
